@@ -98,3 +98,14 @@ func Hash64(s string) uint64 {
 	h.Write([]byte(s))
 	return h.Sum64()
 }
+
+// Pick3 returns one of three ints.
+func (r *Rand) Pick3(a, b, c int) int {
+	switch r.Intn(3) {
+	case 0:
+		return a
+	case 1:
+		return b
+	}
+	return c
+}
